@@ -18,7 +18,7 @@ pub fn gen_valid_literal(t: &mut Tape, ascii_only: bool) -> String {
         _ => 3,
     };
     let quotes = "'".repeat(q);
-    let indent = " ".repeat(t.below(9) as usize);
+    let indent = if t.chance(1, 6) { " ".repeat(20 + t.below(45) as usize) } else { " ".repeat(t.below(9) as usize) };
     let n = t.below(4);
     let mut s = String::new();
     s.push_str(&quotes);
@@ -69,7 +69,14 @@ pub fn gen_literal(t: &mut Tape) -> Lit {
         _ => 3,
     };
     let quotes = "'".repeat(q);
-    let indent = if t.chance(1, 2) { " ".repeat(t.below(10) as usize) } else { t.pick_str(INDENTS).to_string() };
+    let indent = if t.chance(1, 6) {
+        // written far deeper than it will end up
+        " ".repeat(20 + t.below(45) as usize)
+    } else if t.chance(1, 2) {
+        " ".repeat(t.below(10) as usize)
+    } else {
+        t.pick_str(INDENTS).to_string()
+    };
     let mixed_endings = t.chance(1, 4);
     let main_ending = *t.pick(ENDINGS);
     let ending = |t: &mut Tape| -> &'static str {
